@@ -218,6 +218,45 @@ def mk_rule(cfg, list_form=None, retarget=None, copied=None):
         getattr(c, FILTER_METHOD["named"])(decoy)
         return getattr(p, FILTER_METHOD[okind])(_arg(onames, list_form))
 
+    if list_form == "keywords":
+        # every argument passed by its documented parameter name (are_named(names=...), have_name_matching(regex=...))
+        import inspect
+
+        def kw(obj, meth, value):
+            f = getattr(obj, meth)
+            pname = next(iter(inspect.signature(f).parameters))
+            return f(**{pname: value})
+
+        r = Rule().modules_that()
+        skind = cfg["subs"][0][0]
+        snames = [n for _, n in cfg["subs"]]
+        r = kw(r, FILTER_METHOD[skind], snames[0] if (skind == "regex" or len(snames) == 1) else list(snames))
+        r = getattr(r, cfg["verb"])()
+        if cfg.get("anything"):
+            return getattr(r, ANY_METHOD[cfg["dir"]])()
+        r = getattr(r, IMPORT_METHOD[(cfg["dir"], cfg["exc"])])()
+        okind = cfg["objs"][0][0]
+        onames = [n for _, n in cfg["objs"]]
+        return kw(r, FILTER_METHOD[okind], onames[0] if (okind == "regex" or len(onames) == 1) else list(onames))
+
+    if list_form == "statements":
+        # the rule written as a sequence of statements on ONE name (rule = Rule(); rule.modules_that(); ...): whatever the
+        # fluent methods return is ignored, the object that was created first is the rule
+        rule = Rule()
+        rule.modules_that()
+        skind = cfg["subs"][0][0]
+        snames = [n for _, n in cfg["subs"]]
+        getattr(rule, FILTER_METHOD[skind])(snames[0] if skind == "regex" else _arg(snames, True))
+        getattr(rule, cfg["verb"])()
+        if cfg.get("anything"):
+            getattr(rule, ANY_METHOD[cfg["dir"]])()
+            return rule
+        getattr(rule, IMPORT_METHOD[(cfg["dir"], cfg["exc"])])()
+        okind = cfg["objs"][0][0]
+        onames = [n for _, n in cfg["objs"]]
+        getattr(rule, FILTER_METHOD[okind])(onames[0] if okind == "regex" else _arg(onames, True))
+        return rule
+
     r = Rule().modules_that()
     skind = cfg["subs"][0][0]
     snames = [n for _, n in cfg["subs"]]
@@ -285,8 +324,25 @@ def _prefix(cfg, list_form=None):
     return getattr(r, IMPORT_METHOD[(cfg["dir"], cfg["exc"])])()
 
 
+_RUNS = [0]
+
+
 def run(rule, ev):
-    """-> (outcome, message) with outcome in pass/fail/error:<Type>."""
+    """-> (outcome, message) with outcome in pass/fail/error:<Type>.  Before every fifth application the caller LOOKS at
+    the rule (str, repr, the read-only properties) and at the architecture (str, repr, modules): looking changes nothing."""
+    _RUNS[0] += 1
+    if _RUNS[0] % 5 == 0:
+        for look in (str, repr, lambda r: getattr(r, "rule_subjects", None), lambda r: getattr(r, "rule_objects", None), lambda r: getattr(r, "layer_mapping", None)):
+            try:
+                look(rule)
+            except Exception:  # noqa: BLE001  (an unfinished or 'anything' rule may refuse to be printed)
+                pass
+        for look in (str, repr, lambda e: list(e.modules)):
+            try:
+                look(ev)
+            except Exception:  # noqa: BLE001
+                pass
+        HUB.acc.count("rules_and_architectures_looked_at_before_an_application")
     try:
         rule.assert_applies(ev)
         return "pass", None
